@@ -174,6 +174,19 @@ def flags(repo):
     if n_append not in (1, 2):
         raise ValueError(f"ReadInstance: {n_append} calls of AppendEntityErrorMsg")
     out["complexReportsError"] = n_append == 2
+    # the terminating `;`
+    tails = re.findall(r"c\s*=\s*in\.peek\(\)\s*;\s*(if\(\s*c\s*[!=]=\s*'[E;]'\s*\)\s*\{.*?)AppendEntityErrorMsg", rib, re.S)
+    kinds = set()
+    for tl in tails:
+        if re.fullmatch(r"if\(\s*c\s*!=\s*'E'\s*\)\s*\{\s*in\s*>>\s*c\s*;\s*\}\s*", tl):
+            kinds.add(False)
+        elif re.fullmatch(r"if\(\s*c\s*==\s*';'\s*\)\s*\{\s*in\s*>>\s*c\s*;\s*\}\s*else\s+if\(\s*c\s*!=\s*'E'\s*\)\s*\{[^{}]*obj->Error\(\)\.GreaterSeverity\(\s*SEVERITY_WARNING\s*\)\s*;\s*sev\s*=\s*obj->Error\(\)\.severity\(\)\s*;\s*\}\s*", tl):
+            kinds.add(True)
+        else:
+            kinds.add("?")
+    if len(tails) != n_append or len(kinds) != 1 or "?" in kinds:
+        raise ValueError(f"ReadInstance: handling of the terminating ';' changed ({len(tails)} sites, {kinds})")
+    out["missingSemicolonReported"] = kinds.pop()
     # state switch of ReadInstance
     if not re.search(r"case\s+SEVERITY_NULL:\s*case\s+SEVERITY_USERMSG:\s*if\(\s*_fileType\s*!=\s*WORKING_SESSION\s*\)\s*\{\s*node->ChangeState\(\s*completeSE\s*\)", rib):
         raise ValueError("ReadInstance: completeSE rule changed")
@@ -243,7 +256,8 @@ def rwCfg : StepModel.P21.RWCfg :=
     aggrSkipsComments := {_b(f['aggrSkipsComments'])}, complexMergesParts := {_b(f['complexMergesParts'])},
     complexPartStrict := {f['complexPartStrict']}, recoveryKeepsSemicolon := {_b(f['recoveryKeepsSemicolon'])},
     complexReportsError := {_b(f['complexReportsError'])},
-    skipInstanceSkipsComments := {_b(f['skipInstanceSkipsComments'])} }}
+    skipInstanceSkipsComments := {_b(f['skipInstanceSkipsComments'])},
+    missingSemicolonReported := {_b(f['missingSemicolonReported'])} }}
 
 /-- the literal-level switches, re-derived by this extractor (C09's `Generated.lexCfg` is the primary tie for them) -/
 def rwLexCfg : StepModel.P21.LexCfg :=
